@@ -716,10 +716,13 @@ var symbols = []rune{'.', ',', '\'', ' ', '_', ' ', '٫', '٬', ' ', '€', '
 	'\u007f', '\u0080', '\u07ff', '\u0800', '\ufffc', '\ufffd', '\ufffe', '\uffff', '\U0010ffff', '\u2028', '\ufeff', '\u00ad'}
 
 func TestProp_Number(t *testing.T) {
-	ev.Describe("Number", "int64 x dec 0..18 x groupSize 0..6 x distinct group/decimal symbols of 1-4 UTF-8 bytes; oracle: ParseNumber(AppendNumber(..)) == (num, dec, len), no NUL/stale byte in the output, digits grouped from the right in groups of groupSize, prefix preserved; non-trivial = >= 4 integer digits or dec > 0")
+	ev.Describe("Number", "int64 x dec 0..18 (one in ten: 19..70) x groupSize 0..6 x distinct group/decimal symbols of 1-4 UTF-8 bytes; oracle: ParseNumber(AppendNumber(..)) == (num, dec, len), no NUL/stale byte in the output, digits grouped from the right in groups of groupSize, prefix preserved; non-trivial = >= 4 integer digits or dec > 0")
 	ev.Check(t, 40000, func(t *rapid.T) {
 		num := anyInt64().Draw(t, "num")
 		dec := rapid.IntRange(0, 18).Draw(t, "dec")
+		if rapid.IntRange(0, 9).Draw(t, "manydec") == 0 {
+			dec = rapid.IntRange(19, 70).Draw(t, "decbig") // more decimals than the number has digits: zeros behind the decimal symbol
+		}
 		gs := rapid.IntRange(0, 6).Draw(t, "gs")
 		g := rapid.SampledFrom(symbols).Draw(t, "g")
 		d := rapid.SampledFrom(symbols).Draw(t, "d")
